@@ -15,7 +15,8 @@ the end):
            after T2 has committed, T1's consistent reads still see the tables as of point k (if T1 already had a read view then).
            SELECT ... FOR UPDATE / FOR SHARE / LOCK IN SHARE MODE, INSERT/UPDATE/DELETE (with their joins and subqueries) read the
            latest committed rows and lock what they scan.
-  locks    The rows a locking statement scans on a table are approximated by a predicate: equalities between a leading part
+  locks    (FOR UPDATE / SHARE OF t, ...: only the named tables are locked and read as current, the others stay consistent reads.)
+           The rows a locking statement scans on a table are approximated by a predicate: equalities between a leading part
            of the PRIMARY KEY and values that do not depend on the row (constants, parameters, variables, propagated through
            col = col conjuncts of WHERE / ON).  No such equality: the whole table.  Predicate locks behave like next-key locks:
            an INSERT of a row that satisfies a predicate held by another transaction waits.  X for FOR UPDATE and for the target
@@ -115,6 +116,8 @@ class Interleaving:
 
     def release(self, sess):
         sess.held = []
+        sess.gaps = []
+        sess.rowlevel = {}
         sess.snap = None
         sess.read_view = False
         sess.tx_stmts = 0
@@ -132,6 +135,7 @@ class Interleaving:
         if interior:
             sess.tx_stmts += 1
         if current:
+            sess.rowlevel = {}
             locks = self.stmt_locks(sess, st, env)
             self.acquire(sess, locks)
         elif not sess.read_view:
@@ -141,11 +145,14 @@ class Interleaving:
         """insert intention: waits for every predicate lock of another transaction the new row satisfies"""
         pred = {c: row.get(c) for c in t.pk} if t.pk else {}
         for o in self.sessions:
-            if o is sess or not o.held:
+            if o is sess or not (o.held or o.gaps):
                 continue
             for (tn, hp, _mode) in o.held:
                 if tn == t.name and all(_same_val(row.get(c), v) for c, v in hp.items()):
                     raise LockWait(f"INSERT into {tn} {pred} waits for lock {hp} of another transaction")
+            for (tn, hp) in o.gaps:
+                if tn == t.name and all(_same_val(row.get(c), v) for c, v in hp.items()):
+                    raise LockWait(f"INSERT into {tn} {pred} waits for a gap lock {hp} of another transaction")
         sess.held.append((t.name, pred, "X"))
         if sess.snap is not None:
             sess.own_inserted.append((t.name, row))
@@ -153,6 +160,40 @@ class Interleaving:
     def on_touch(self, sess, t, row, mode="X"):
         """a statement locks one existing row outside its scan predicate (INSERT ... ON DUPLICATE KEY UPDATE hitting a duplicate)"""
         self.acquire(sess, [(t.name, {c: row.get(c) for c in t.pk} if t.pk else {}, mode)])
+
+    def on_joined(self, sess, frm, frames):
+        """row locks of the tables of this join that are probed by primary key (see _block_locks)"""
+        todo = sess.rowlevel.get(id(frm))
+        if not todo:
+            return
+        const = todo.get("__const__", {})
+
+        def reached(f):
+            # the join reaches this combination of rows only if every row satisfies the constant conditions on its own table
+            for (b, c), v in const.items():
+                rb = f.get(b)
+                if rb is not None and c in rb and rb.get(c) is not None and not _same_val(rb.get(c), v):
+                    return False
+            return True
+
+        for a, spec in todo.items():
+            if a == "__const__":
+                continue
+            tn, md = spec
+            t = self.eng.table(tn)
+            seen = set()
+            locks = []
+            for f in frames:
+                if not reached(f):
+                    continue
+                r = f.get(a)
+                if r is None or id(r) in seen or not all(c in r for c in t.pk):
+                    continue
+                seen.add(id(r))
+                if any(r.get(c) is None for c in t.pk):
+                    continue                 # the NULL row of an outer join
+                locks.append((tn, {c: r.get(c) for c in t.pk}, md))
+            self.acquire(sess, locks)
 
     def on_write(self, sess, t, row, deleted=False):
         if sess.snap is not None:
@@ -217,7 +258,8 @@ class Interleaving:
                 self._select_locks(sess, p, env, mode, out)
             return
         m = "X" if sel.get("lock") == "update" else mode
-        self._block_locks(sess, sel.get("from"), sel.get("where"), env, lambda a, tn: m, out)
+        only = set(sel["lock_of"]) if sel.get("lock") and sel.get("lock_of") else None
+        self._block_locks(sess, sel.get("from"), sel.get("where"), env, lambda a, tn: (m if only is None or a.lower() in only else None), out)
         subs = []
         _find_selects(sel.get("where"), subs)
         _find_selects([c[0] for c in sel.get("cols", []) if isinstance(c, tuple)], subs)
@@ -294,15 +336,34 @@ class Interleaving:
                 elif b in const and a not in const:
                     const[a] = const[b]
                     changed = True
+        top = {ref[2] for _jt, ref, _on in (frm or ()) if ref[0] == "table"}
+        paired = {}
+        for x, y in pairs:
+            if x[0] != y[0]:
+                paired.setdefault(x, set()).add(y[0])
+                paired.setdefault(y, set()).add(x[0])
         for a, tn in alias_tab.items():
             t = tables[a]
+            md = mode_of(a, tn)
+            if md is None:                  # a table the locking clause does not name (FOR SHARE OF ...)
+                continue
             pred = {}
             for c in t.pk:
                 if (a, c) in const:
                     pred[c] = const[(a, c)]
                 else:
                     break
-            out.append((tn, pred, mode_of(a, tn)))
+            if t.pk and len(pred) < len(t.pk) and a in top and all((a, c) in const or (a, c) in paired for c in t.pk):
+                # every primary-key column is fixed by a constant or by an equality with a column of another table of the join: the
+                # table is probed by primary key, once per row of its join partner, and only the probed rows are locked.  They are
+                # known when the join has been evaluated (Session.from_rows -> on_joined).
+                sess.rowlevel.setdefault(id(frm), {})[a] = (tn, md)
+                sess.rowlevel[id(frm)]["__const__"] = dict(const)
+                # ... and a probe that finds nothing locks the gap where the row would be: no transaction may insert there.  Kept as a
+                # gap lock on the constant prefix (wider than InnoDB's): it stops inserts, it does not conflict with row locks.
+                sess.gaps.append((tn, dict(pred)))
+                continue
+            out.append((tn, pred, md))
 
     # ---- read views -------------------------------------------------------------------------------------------------------
     def visible_rows(self, sess, t):
